@@ -6,7 +6,8 @@ from props import sched_common
 def variants(k):
     # W MODE A B C PSEED
     base = [[2, 0, 2, 2, 1], [3, 0, 3, 2, 2], [2, 1, 3, 2, 0], [3, 2, 3, 2, 0], [1, 0, 2, 1, 1],
-            [3, 1, 4, 2, 0], [2, 2, 2, 3, 0], [3, 0, 2, 3, 1], [2, 0, 1, 3, 1]]
+            [3, 1, 4, 2, 0], [2, 2, 2, 3, 0], [3, 0, 2, 3, 1], [2, 0, 1, 3, 1],
+            [3, 3, 2, 2, 2], [2, 3, 3, 2, 2], [3, 3, 3, 3, 1]]
     return [v + [k * 10 + i] for i, v in enumerate(base)]
 
 
@@ -14,7 +15,7 @@ def run(res):
     common.prove(res, drivers=["cond", "mutex"])
     n = 300 if res.tier == "quick" else 3000
     sched_common.campaign(res, "C05", "cond_prog", variants(res.seed), n, ["cond", "mutex"],
-                          workers_note=", W in 1..3 workers; bounded buffer (signal), gate (broadcast) and turnstile (broadcast) programs with <= 4 waiters")
+                          workers_note=", W in 1..3 workers; bounded buffer (signal), gate (broadcast), turnstile (broadcast) and token programs (signal issued outside the mutex) with <= 4 waiters")
     if res.breaks and not res.violations:
         sched_common.search_more(res, "C05", "cond_prog", variants(res.seed + 1), 400)
     res.assumptions += [
